@@ -149,7 +149,7 @@ def translator_max(repo, d):
     import opmods
     res = {}
     try:
-        w2c2 = opmods.build_w2c2(repo, d)
+        w2c2 = get_w2c2(repo, d)
     except Exception as e:
         return {"build": (str(e)[-200:], None)}
     for mx in (65535, 65536):
@@ -259,6 +259,13 @@ def run_grow_content(chk, repo, d, tier, broken, exe=None):
     chk.coverage.update({"content_" + k: v for k, v in hist.items()})
 
 
+def get_w2c2(repo, d):
+    """build the real w2c2 once per scratch dir"""
+    import opmods
+    exe = os.path.join(d, "w2c2")
+    return exe if os.path.exists(exe) else opmods.build_w2c2(repo, d)
+
+
 # ----------------------------------------------------------------------------- memory.size through the translator
 
 def generated_size_part(chk, repo, d, inc, tier, broken):
@@ -270,7 +277,7 @@ def generated_size_part(chk, repo, d, inc, tier, broken):
     import opmods
     res = {}
     try:
-        w2c2 = opmods.build_w2c2(repo, d)
+        w2c2 = get_w2c2(repo, d)
     except Exception as e:
         broken.append({"kind": "harness-build", "msg": "w2c2: " + str(e)[-500:]})
         return res
@@ -696,7 +703,7 @@ def replay(path):
                 import opmods
                 kind = r.get("memory_kind", "defined-shared")
                 shared, imported = [(sh, im) for k, sh, im in gs.MEMORY_KINDS if k == kind][0]
-                gexe, gtext = gs.build_generated(opmods.build_w2c2(repo, d), inc, os.path.join(d, "genmod"),
+                gexe, gtext = gs.build_generated(get_w2c2(repo, d), inc, os.path.join(d, "genmod"),
                                                  shared=shared, imported=imported)
                 em = gs.emitted_statements(gtext)
                 print(f"w2c2 emits for memory.size on a {kind} memory: si0={em.get('memory.size')};")
